@@ -23,6 +23,7 @@ func traceOpts() engine.ExecutionOptions {
 		ExcludeValidateStats:                   true,
 		ExcludePlannerStats:                    true,
 		ExcludeLoadStats:                       true,
+		ExcludeRawInputData:                    true, // a snapshot of the parent data: for parallel fetches it depends on which sibling merged first
 		EnablePredictableDebugTimings:          true,
 		IncludeTraceOutputInResponseExtensions: true,
 		Debug:                                  true,
@@ -30,9 +31,12 @@ func traceOpts() engine.ExecutionOptions {
 }
 
 func execTraced(env *fedenv.Env, r Req) string {
-	ctx, cancel := context.WithTimeout(context.Background(), 30*time.Second)
+	ctx, cancel := context.WithTimeout(context.Background(), 120*time.Second)
 	defer cancel()
 	body, err := env.Execute(ctx, r.Q, r.V, r.Op, traceOpts())
+	if ctx.Err() != nil {
+		must(fmt.Errorf("traced request did not finish within 120s: %s", r.Q))
+	}
 	if err != nil {
 		return "ERR:" + err.Error()
 	}
@@ -94,14 +98,14 @@ func gatedPair(o int, a, b Req, traced bool) (gotA, refA, gotB, refB string, err
 		armed.Store(false)
 		gotB = run(env, b)
 		return
-	case <-time.After(20 * time.Second):
+	case <-time.After(60 * time.Second):
 		return "", refA, "", refB, fmt.Errorf("request A never reached a subgraph")
 	}
 	gotB = run(env, b)
 	release()
 	select {
 	case gotA = <-done:
-	case <-time.After(20 * time.Second):
+	case <-time.After(60 * time.Second):
 		return "", refA, gotB, refB, fmt.Errorf("request A never returned")
 	}
 	return
